@@ -478,6 +478,36 @@ def split_path_opts(rest):
 
 INCLUDED = []
 VAC_COUNTER = [0]
+FLAGS = set()
+
+
+def preprocess(lines, frag_name):
+    out = []
+    stack = []   # list of bools: currently emitting?
+    for l in lines:
+        md = DIRECTIVE.match(l)
+        d = md.group(1).strip() if md else None
+        if d is not None and d.startswith('if '):
+            name = d.split()[1]
+            neg = name.startswith('!')
+            val = (name.lstrip('!') in FLAGS) != neg
+            stack.append(val)
+            continue
+        if d == 'else':
+            if not stack:
+                raise ExtractError('%s: else without if' % frag_name)
+            stack[-1] = not stack[-1]
+            continue
+        if d == 'endif':
+            if not stack:
+                raise ExtractError('%s: endif without if' % frag_name)
+            stack.pop()
+            continue
+        if all(stack):
+            out.append(l)
+    if stack:
+        raise ExtractError('%s: unterminated if' % frag_name)
+    return out
 
 
 class Region:
@@ -494,7 +524,7 @@ class Region:
 
 def expand_fragment(frag_name, text, out_lines, regions, log, vacuity=False):
     """Expand one fragment template into out_lines; record regions (line ranges)."""
-    lines = text.split('\n')
+    lines = preprocess(text.split('\n'), frag_name)
     cur_region = None
     i = 0
     included = INCLUDED
@@ -525,6 +555,9 @@ def expand_fragment(frag_name, text, out_lines, regions, log, vacuity=False):
             continue
         d = md.group(1).strip()
         i += 1
+        if d.startswith('if ') or d == 'else' or d == 'endif':
+            # handled by preprocess(); never reached
+            raise ExtractError('%s: stray conditional directive' % frag_name)
         if d.startswith('include '):
             inc = d.split()[1]
             end_region()
@@ -641,6 +674,7 @@ def build_unit(unit, outdir, vacuity=False):
     upath = os.path.join(VX, 'units', unit + '.unit')
     frags = []
     features = ''
+    flags = set()
     for l in open(upath):
         l = l.strip()
         if not l or l.startswith('#'):
@@ -648,12 +682,17 @@ def build_unit(unit, outdir, vacuity=False):
         if l.startswith('feature '):
             features += '#![feature(%s)]\n' % l.split()[1]
             continue
+        if l.startswith('flag '):
+            flags.add(l.split()[1])
+            continue
         frags.append(l)
     out_lines = (HEADER % {'features': features}).split('\n')
     out_lines.pop()  # trailing empty
     regions = []
     log = []
     del INCLUDED[:]
+    FLAGS.clear()
+    FLAGS.update(flags)
     for f in frags:
         text = open(os.path.join(VX, 'mods', f + '.rs')).read()
         out_lines.append('// ==== fragment %s' % f)
